@@ -34,6 +34,7 @@ func runC07(w *core.World, r *core.Report) {
 	r.Rule("R1", "live fields of State/Cache are in the CBOR snapshot (exported, not tagged out), or in the checked exception table")
 	r.Rule("R2", "request-state fields of Vm/Page/Menu/Sizer read on the run/render path are re-initialised on every path through the resume block")
 	r.Rule("R4", "Serialize/Deserialize and Save/Load are symmetric")
+	r.Rule("R5", "constructing the VM and renderer (once per engine, i.e. per request in persisted operation) has no effect on persisted State/Cache")
 
 	eng := []*ssa.Function{}
 	for _, n := range []string{"(*DefaultEngine).Exec", "(*DefaultEngine).Flush", "(*DefaultEngine).Finish", "(*DefaultEngine).Reset"} {
@@ -95,6 +96,47 @@ func runC07(w *core.World, r *core.Report) {
 
 	// ---- R2 -----------------------------------------------------------------------------------
 	checkResumeReset(w, r)
+
+	// ---- R5 -----------------------------------------------------------------------------------
+	if nv := anchor(w, r, "vm", "NewVm"); nv != nil {
+		fam := map[*ssa.Function]bool{nv: true}
+		for changed := true; changed; {
+			changed = false
+			for f := range fam {
+				for _, c := range core.Calls(f) {
+					if g := core.StaticCallee(c); g != nil && (core.PkgOf(g) == "vm" || core.PkgOf(g) == "render") && !fam[g] && len(g.Blocks) > 0 {
+						fam[g] = true
+						changed = true
+					}
+				}
+			}
+		}
+		bad := ""
+		for f := range fam {
+			for _, b := range f.Blocks {
+				for _, in := range b.Instrs {
+					switch t := in.(type) {
+					case *ssa.Store:
+						if tn, fld, ok := core.FieldOfAddr(t.Addr); ok && persisted[tn] {
+							bad = fmt.Sprintf("%s stores to %s.%s at %s", core.QName(f), tn, fld, w.Pos(t.Pos()))
+						}
+					case ssa.CallInstruction:
+						n := core.CallName(t)
+						if strings.HasPrefix(n, "state.(*State).") || strings.HasPrefix(n, "cache.Memory.") || strings.HasPrefix(n, "cache.(*Cache).") {
+							m := n[strings.LastIndex(n, ".")+1:]
+							switch m {
+							case "Where", "GetFlag", "MatchFlag", "GetInput", "Depth", "Top", "Sides", "String", "FlagBitSize", "FlagByteSize", "Get", "ReservedSize", "Levels", "Keys", "Invalid", "Lateral", "Back":
+							default:
+								bad = fmt.Sprintf("%s calls %s at %s", core.QName(f), n, w.Pos(t.Pos()))
+							}
+						}
+					}
+				}
+			}
+		}
+		r.Check(bad == "", "R5", "vm.NewVm and the constructors it reaches", nv.Pos(), fmt.Sprintf("%d functions, no effect on State/Cache", len(fam)),
+			"constructing the VM changes persisted session state: a per-request engine applies the change before every request, a long-lived engine only once - the two modes diverge: "+bad)
+	}
 
 	// ---- R4 -----------------------------------------------------------------------------------
 	ser, des := anchor(w, r, "persist", "(*Persister).Serialize"), anchor(w, r, "persist", "(*Persister).Deserialize")
